@@ -56,6 +56,13 @@ pub fn client_config() -> Arc<rustls::ClientConfig> {
     Arc::new(cfg)
 }
 
+/// Same, offering HTTP/2 through ALPN.
+pub fn client_config_h2() -> Arc<rustls::ClientConfig> {
+    let mut cfg = (*client_config()).clone();
+    cfg.alpn_protocols = vec![b"h2".to_vec()];
+    Arc::new(cfg)
+}
+
 /// The first flight a real rustls client would send (a ClientHello record).
 pub fn client_hello_bytes() -> Vec<u8> {
     let name = rustls::pki_types::ServerName::try_from("sim").unwrap();
